@@ -44,11 +44,22 @@ def _tmpdir():
 
 @st.composite
 def stream_case(draw):
-    o = gens.opts(max_fields=5, max_depth=2, eof=False, signed_flags=False, long_strings=True, null_structs=True, bits_char=True, bits_odd=True, wide_bits=True)
-    case = draw(gens.input_case(o, tail=False))
+    union_root = draw(st.integers(0, 4)) == 0
+    o = gens.opts(max_fields=5, max_depth=2, eof=True, signed_flags=False, long_strings=True, null_structs=True, bits_char=True, bits_odd=True, wide_bits=True, dynamic=not union_root)
+    case = draw(gens.input_case(o, tail=False, root_kind="union" if union_root else "struct"))
     align = case["cfg"]["align"]
-    p = draw(st.integers(0, 5)) * 16 if align else draw(st.integers(0, 40))
+    sem = refsem.Sem(case["defs"], case["cfg"])
+    # aligned structures start at a multiple of their own alignment (not only at multiples of 16)
+    p = draw(st.integers(0, 12)) * max(1, sem.align(gens.ROOT)) if align else draw(st.integers(0, 40))
     case["p"] = p
+    # a second value of the same type for read sequences, and a cut position for the truncated-input relation
+    if not union_root:
+        try:
+            v2 = gens.gen_value(draw, sem, gens.ROOT)
+            case["data2"] = bytes(sem.encode(gens.ROOT, v2)).hex()
+        except (OverflowError, refsem.DefinitionError):
+            pass
+    case["cut"] = draw(st.integers(0, 10_000))
     case["prefixes"] = [draw(st.binary(min_size=p, max_size=p)).hex(), draw(st.binary(min_size=p, max_size=p)).hex()]
     case["suffixes"] = [draw(st.binary(max_size=12)).hex(), draw(st.binary(max_size=12)).hex()]
     # sequence: further inputs for the same type, parsed back-to-back (aligned: each start must stay aligned)
@@ -84,10 +95,13 @@ def run_case(case, ctx):
     p = case["p"]
     desc = lambda extra: common.describe(case, extra)  # noqa: E731
     n = 0
+    eof_def = gens.has_eof(sem.res(common.ROOT))
+    if eof_def:
+        ctx.count("has:eof-member(no suffix, no sequence)")
     for pi, prefix in enumerate(case["prefixes"]):
         prefix = bytes.fromhex(prefix)
         for si, suffix in enumerate(case["suffixes"]):
-            suffix = bytes.fromhex(suffix)
+            suffix = b"" if eof_def else bytes.fromhex(suffix)
             whole = prefix + data + suffix
             tail = data + suffix
             variants = []
@@ -143,34 +157,60 @@ def run_case(case, ctx):
                 finally:
                     if kind == "file":
                         x.close()
-    # ---- read sequences on one stream
-    k = case["seq"]
+    # ---- a truncated input: every input kind and call form gives the same outcome (same exception class, or same value)
+    if end >= 1:
+        cutpos = case.get("cut", 0) % end
+        cutb = data[:cutpos]
+        outcomes = {}
+        for kind, mk in (("bytes", lambda: bytes(cutb)), ("bytearray", lambda: bytearray(cutb)), ("memoryview", lambda: memoryview(cutb)), ("BytesIO", lambda: io.BytesIO(cutb)), ("minimal-filelike", lambda: MinimalStream(cutb, 0))):
+            forms = ("T(x)", "T.read(x)", "cs.read(name,x)") + (("T.reads(x)",) if kind in ("bytes", "bytearray", "memoryview") else ())
+            for form in forms:
+                x = mk()
+                r = lib(T, x) if form == "T(x)" else lib(T.read, x) if form == "T.read(x)" else lib(T.reads, x) if form == "T.reads(x)" else lib(cs.read, "Root", x)
+                n += 1
+                outcomes[(kind, form)] = ("raised", r.type) if isinstance(r, Err) else ("value", libside.cplain(r))
+        distinct = {repr(v) for v in outcomes.values()}
+        if len(distinct) > 1:
+            raise Violation("truncated-input-outcome-differs", f"input cut at {cutpos} of {end}: outcomes by (kind, form): { {k_: v for k_, v in outcomes.items()} }: {desc({'cut': cutpos})}")
+        ctx.count("truncated:" + next(iter(outcomes.values()))[0])
+    # ---- read sequences on one stream (alternating two different values of the type)
+    k = 0 if eof_def else case["seq"]
     if k:
-        step = end + (-end % 16 if case["cfg"]["align"] else 0)
+        datas = [(data, end, bval, bsizes)]
+        if case.get("data2"):
+            d2 = bytes.fromhex(case["data2"])
+            b2 = lib(T, d2)
+            if not isinstance(b2, Err):
+                datas.append((d2, len(d2), libside.cplain(b2), _sizes(b2)))
+                ctx.count("sequence:alternating-two-values")
+        unit = max(1, sem.align(common.ROOT)) if case["cfg"]["align"] else 1
         stream_bytes = b""
         starts = []
         for i in range(k + 1):
+            d_, e_, _, _ = datas[i % len(datas)]
             starts.append(len(stream_bytes))
-            stream_bytes += data + bytes(step - end)
+            stream_bytes += d_[:e_] + bytes(-e_ % unit)
         s = io.BytesIO(stream_bytes + b"\xa5\xa5")
         for i in range(k + 1):
+            d_, e_, v_, sz_ = datas[i % len(datas)]
             s.seek(starts[i])
-            r = lib(T, s)
+            r = lib(T, s) if i % 2 == 0 else lib(cs.read, "Root", s)
             n += 1
             what = {"sequence_index": i, "of": k + 1}
-            if isinstance(r, Err) or libside.cplain(r) != bval or (bsizes is not None and _sizes(r) != bsizes):
-                raise Violation("sequence-differs", f"{what}: read #{i} on a shared stream gave {r!r}, solo value {bval!r}: {desc(what)}")
-            if s.tell() != starts[i] + end:
-                raise Violation("position-wrong", f"{what}: stream at {s.tell()}, expected {starts[i] + end}: {desc(what)}")
+            if isinstance(r, Err) or libside.cplain(r) != v_ or (sz_ is not None and _sizes(r) != sz_):
+                raise Violation("sequence-differs", f"{what}: read #{i} on a shared stream gave {r!r}, solo value {v_!r}: {desc(what)}")
+            if s.tell() != starts[i] + e_:
+                raise Violation("position-wrong", f"{what}: stream at {s.tell()}, expected {starts[i] + e_}: {desc(what)}")
+        step = end + (-end % unit)
         # really back-to-back (no explicit seek) when no re-alignment is needed between values
-        if step == end:
+        if all(starts[i + 1] == starts[i] + datas[i % len(datas)][1] for i in range(k)):
             s.seek(0)
             for i in range(k + 1):
                 r = lib(T, s)
-                if isinstance(r, Err) or libside.cplain(r) != bval:
-                    raise Violation("sequence-differs", f"back-to-back read #{i} gave {r!r}, solo value {bval!r}: {desc({'sequence_index': i})}")
-            if s.tell() != (k + 1) * end:
-                raise Violation("position-wrong", f"after {k + 1} back-to-back reads stream at {s.tell()}, expected {(k + 1) * end}: {desc({})}")
+                if isinstance(r, Err) or libside.cplain(r) != datas[i % len(datas)][2]:
+                    raise Violation("sequence-differs", f"back-to-back read #{i} gave {r!r}, solo value {datas[i % len(datas)][2]!r}: {desc({'sequence_index': i})}")
+            if s.tell() != len(stream_bytes):
+                raise Violation("position-wrong", f"after {k + 1} back-to-back reads stream at {s.tell()}, expected {len(stream_bytes)}: {desc({})}")
             ctx.count("sequence:back-to-back")
         ctx.count("sequence:reads", k + 1)
     ctx.evaluations += n - 1
@@ -213,6 +253,91 @@ def dynunion_case(draw):
             "suffix": draw(st.binary(max_size=8)).hex(), "compiled": draw(st.booleans()), "endian": draw(st.sampled_from("<>"))}
 
 
+def _sizes_tree(obj):
+    """Recorded sizes of a parsed structure and, recursively, of its structure-valued members."""
+    out = {}
+    for name, size in dict(getattr(obj, "_sizes", None) or {}).items():
+        out[name] = size
+    for name in list(getattr(obj, "_values", None) or {}):
+        v = getattr(obj, name, None)
+        if hasattr(v, "_sizes") and hasattr(v, "_values"):
+            out[name + "."] = _sizes_tree(v)
+    return out
+
+
+# ---------------------------------------------------------------- types other than structures as the called type
+
+LEAF_DEFS = "enum E : uint16 { A = 1, B = 2 }; flag F : uint8 { X = 1, Y = 2 }; typedef uint32 myint; typedef uint16 pair_t[2]; struct S { uint8 a; uint16 b; }; union U { uint16 w; uint8 b[2]; };"
+LEAF_TYPES = ["uint16", "int24", "uint64", "float", "char", "wchar", "uleb128", "E", "F", "myint", "pair_t", "uint16[3]", "int24[2]", "char[4]", "char[]", "wchar[2]", "wchar[]", "uint16[]", "E[2]", "F[]", "S[2]", "U", "U[2]", "uleb128[2]"]
+
+
+@st.composite
+def leaf_case(draw):
+    p = draw(st.integers(0, 33))
+    return {"leaf": True, "type": draw(st.sampled_from(LEAF_TYPES)), "endian": draw(st.sampled_from("<>")), "p": p, "prefix": draw(st.binary(min_size=p, max_size=p)).hex(),
+            "data": draw(st.binary(min_size=24, max_size=24)).hex(), "suffix": draw(st.binary(max_size=6)).hex()}
+
+
+def _run_leaf(case, ctx):
+    from pbt.drive import import_repo
+
+    m = import_repo()
+    cs = m.cstruct(endian=case["endian"])
+    cs.load(LEAF_DEFS)
+    tn = case["type"]
+    base_name, _, dim = tn.partition("[")
+    T = getattr(cs, base_name)
+    if dim:
+        T = T[int(dim[:-1]) if dim[:-1] else None]
+    data = bytearray(bytes.fromhex(case["data"]))
+    if tn.startswith("wchar"):
+        data = bytearray("ab\u20acd\x00xyzwvuts".encode("utf-16-le" if case["endian"] == "<" else "utf-16-be"))[:24]
+    if tn.startswith("float"):
+        data[0:4] = b"\x00\x00\x80\x3f" if case["endian"] == "<" else b"\x3f\x80\x00\x00"
+    if tn.startswith("uleb128"):
+        data[2] &= 0x7F
+        data[5] &= 0x7F
+    if tn.endswith("[]"):
+        data[12:16] = b"\x00\x00\x00\x00"  # a terminator for every element size used here
+    data = bytes(data)
+    s0 = io.BytesIO(data)
+    base = lib(T, s0)
+    if isinstance(base, Err):
+        raise Violation("accepted-input-rejected", f"{tn}({data.hex()}) raised {base}", base.where)
+    bval, t0 = libside.cplain(base), s0.tell()
+    val = data[:t0]
+    p, prefix, suffix = case["p"], bytes.fromhex(case["prefix"]), bytes.fromhex(case["suffix"])
+    whole = prefix + val + suffix
+    n = 0
+    variants = []
+    for kind, mk in (("bytes", lambda: bytes(val + suffix)), ("bytearray", lambda: bytearray(val + suffix)), ("memoryview", lambda: memoryview(val + suffix))):
+        for form in ("T(x)", "T.read(x)", "T.reads(x)") + (("cs.read(name,x)",) if not dim else ()):
+            variants.append((kind, form, mk, False))
+    for kind, mk in (("BytesIO", lambda: io.BytesIO(whole)), ("minimal-filelike", lambda: MinimalStream(whole, 0))):
+        for form in ("T(x)", "T.read(x)") + (("cs.read(name,x)",) if not dim else ()):
+            variants.append((kind, form, mk, True))
+    for kind, form, mk, is_stream in variants:
+        x = mk()
+        if is_stream:
+            x.seek(p)
+        if kind != "bytes" and tn in ("char", "char[4]") and form == "T(x)" and not is_stream and len(val + suffix) == t0:
+            pass
+        r = lib(T, x) if form == "T(x)" else lib(T.read, x) if form == "T.read(x)" else lib(T.reads, x) if form == "T.reads(x)" else lib(cs.read, base_name, x)
+        n += 1
+        what = {"type": tn, "input_kind": kind, "call": form, "p": p if is_stream else None, "endian": case["endian"], "data": val.hex()}
+        if isinstance(r, Err):
+            raise Violation("variant-raised", f"{what}: {r}; T(BytesIO) of the same bytes gives {bval!r}", r.where, {"kind": kind, "form": form})
+        if libside.cplain(r) != bval:
+            raise Violation("value-differs", f"{what}: {libside.cplain(r)!r} vs {bval!r}", info={"kind": kind, "form": form})
+        if is_stream and x.tell() != p + t0:
+            raise Violation("position-wrong", f"{what}: stream left at {x.tell()}, expected {p + t0}")
+    ctx.evaluations += n - 1
+    ctx.count("leaf:" + tn)
+    if p > 0 and t0 >= 2:
+        ctx.mark_nontrivial([tn, case["endian"], case["data"], p])
+        ctx.sample({"type": tn, "p": p, "consumed": t0, "variants": n}, "leaf")
+
+
 def _run_dynunion(case, ctx):
     from pbt.drive import import_repo
 
@@ -242,6 +367,17 @@ def _run_dynunion(case, ctx):
             raise Violation("value-differs", f"{what}: {libside.cplain(r)!r} vs {bval!r} at offset 0")
         if x.tell() != p + t0:
             raise Violation("position-wrong", f"{what}: stream left at {x.tell()}, expected p + {t0} = {p + t0}")
+        if _sizes_tree(r) != _sizes_tree(base):
+            raise Violation("sizes-differ", f"{what}: recorded sizes {_sizes_tree(r)} vs {_sizes_tree(base)} at offset 0")
+    # buffer kinds carry the bytes from the value's start on; every call form parses them
+    for kind, mk in (("bytes", lambda: bytes(data + suffix)), ("bytearray", lambda: bytearray(data + suffix)), ("memoryview", lambda: memoryview(data + suffix))):
+        for form, call in (("T(x)", lambda x: T(x)), ("T.read(x)", lambda x: T.read(x)), ("T.reads(x)", lambda x: T.reads(x)), ("cs.read(name,x)", lambda x: cs.read("Root", x))):
+            r = lib(call, mk())
+            what = {"input_kind": kind, "call": form, "definition": case["text"], "data": case["data"]}
+            if isinstance(r, Err):
+                raise Violation("variant-raised", f"{what}: {r}; T(BytesIO) of the same bytes gives {bval!r}", r.where, {"kind": kind, "form": form})
+            if libside.cplain(r) != bval or _sizes_tree(r) != _sizes_tree(base):
+                raise Violation("value-differs", f"{what}: {libside.cplain(r)!r} sizes {_sizes_tree(r)} vs {bval!r} sizes {_sizes_tree(base)}", info={"kind": kind, "form": form})
     # (no back-to-back sequence here: a dynamic union's value may depend on bytes beyond the position it leaves the
     # stream at - its recorded extent is the end of its last member - so concatenating extents is not meaningful)
     ctx.count("dynunion:checked")
@@ -256,6 +392,8 @@ _run_case_static = run_case
 def run_case(case, ctx):  # noqa: F811 - dispatch on the case kind
     if case.get("dynunion"):
         return _run_dynunion(case, ctx)
+    if case.get("leaf"):
+        return _run_leaf(case, ctx)
     return _run_case_static(case, ctx)
 
 
@@ -264,4 +402,5 @@ def stages(tier):
     return [
         HypStage("streams", stream_case, examples=350 if q else 3000, shards=10 if q else 16),
         HypStage("dynamic-unions", dynunion_case, examples=400 if q else 4000, shards=2 if q else 4),
+        HypStage("leaf-types", leaf_case, examples=500 if q else 4000, shards=2 if q else 4),
     ]
